@@ -152,6 +152,10 @@ func GenHistory(r *rand.Rand, o HistOpts) History {
 		default:
 			n = 10 + r.IntN(o.MaxOps-9)
 		}
+		if r.IntN(150) == 0 {
+			n = 99 + r.IntN(14) // ordinals crossing 100: `[T - 1]`, `[T - 10]` and `[T - 100]` are prefixes of one another
+			h.Classes["ordinals>=100"] = true
+		}
 		cnt := map[string]int{}
 		for j := 0; j < n; j++ {
 			api := o.APIs[r.IntN(len(o.APIs))]
